@@ -210,6 +210,32 @@ fn front_end(
         }
     };
     f.triples.push("resolve|ok".into());
+    // Input-shape tag for crash attribution: an explicit import that carries the name of an
+    // interface other than its own and shares a semver track with an implicit import.
+    let tag = {
+        let g = resolution.graph();
+        let imports: Vec<(String, wac_types::ItemKind, bool)> = g
+            .imports()
+            .map(|(n, k, id)| (n.to_string(), k, id.is_some()))
+            .collect();
+        let shadows = imports.iter().any(|(n, k, explicit)| {
+            *explicit
+                && n.contains('/')
+                && match k {
+                    wac_types::ItemKind::Instance(id) => g.types()[*id].id.as_deref() != Some(n.as_str()),
+                    _ => true,
+                }
+                && imports
+                    .iter()
+                    .any(|(n2, _, e2)| !*e2 && (n2 == n || wac_types::are_semver_compatible(n, n2)))
+        });
+        if shadows {
+            format!("{tag}:explicit-import-named-like-implicit-interface")
+        } else {
+            tag.to_string()
+        }
+    };
+    let tag = tag.as_str();
     for (stage, define) in [("encode-defined", true), ("encode-imported", false)] {
         note(stage, tag);
         match resolution.encode(EncodeOptions {
@@ -630,6 +656,24 @@ fn enum_space() -> &'static EnumSpace {
     })
 }
 
+/// Debug helper: the enumeration point of (case label, target, kind, offset, bit).
+pub fn find_point(label: &str, pkg: Option<usize>, kind: &str, off: u64, bit: u64) -> Option<u64> {
+    let sp = enum_space();
+    for (i, f) in sp.files.iter().enumerate() {
+        let c = &sp.cases[f.case];
+        let target_ok = match (&f.target, pkg) {
+            (Target::Source, None) => true,
+            (Target::Package(a), Some(b)) => *a == b,
+            _ => false,
+        };
+        if c.label == label && target_ok {
+            let local = if kind == "truncate" { off } else { f.len as u64 + off * 8 + bit };
+            return Some(sp.starts[i] + local);
+        }
+    }
+    None
+}
+
 pub fn enum_total() -> u64 {
     enum_space().total
 }
@@ -759,12 +803,14 @@ fn run_inner(run: &mut Run) {
         let n = enum_runs(run.tier);
         // quick: evenly strided through the whole space (offset by the seed so that
         // different seeds visit different points)
-        let point = if n >= total {
+        let planned = if n >= total {
             k % total
         } else {
             let stride = total / n;
             (k * stride + (run.tape.draw(stride.max(1)))) % total
         };
+        // the point itself goes on the tape, so a replay file names it explicitly
+        let point = run.tape.draw_preset(total, planned);
         run.nontrivial = true;
         run.cover("modes", "enumeration");
         run_enum_point(run, point);
